@@ -207,7 +207,53 @@ static void dump_cases(vt::Rng& r, bool quick, int shard, int nshards) {
       string t2 = dump(parts, start, hasprev ? &pparts : nullptr, flags, &st2);
       if (t2 != text || st2 != status) same = false;
     }
-    // the other entry points must produce the same text
+    // every other entry point (string-returning and FILE* overloads; pointer, vector, buffer and string forms), with
+    // the current and the previous data split into DIFFERENT numbers of iovecs, must produce the same text / outcome
+    {
+      auto to_iov = [](const vector<pair<const char*, size_t>>& ps) {
+        vector<struct iovec> v;
+        for (auto& p : ps) v.push_back({(void*)p.first, p.second});
+        return v;
+      };
+      uint64_t fl2 = flags | ((flags & 1) ? 0 : (uint64_t)PrintDataFlags::DISABLE_COLOR);
+      for (int variant = 0; variant < 8; variant++) {
+        int np = (int)r.range(1, 4), pp = (int)r.range(1, 4);
+        if (variant < 2 && pp == np) pp = np % 4 + 1;
+        vector<struct iovec> iov = to_iov(split(data, r, np)), piov = to_iov(split(prev, r, pp));
+        string t, st = "ok";
+        try {
+          char* mbuf = nullptr;
+          size_t mlen = 0;
+          FILE* mf = variant >= 4 ? open_memstream(&mbuf, &mlen) : nullptr;
+          try {
+            switch (variant) {
+              case 0: t = format_data(iov.data(), iov.size(), start, hasprev ? piov.data() : nullptr, hasprev ? piov.size() : 0, flags); break;
+              case 1: t = format_data(iov, start, hasprev ? &piov : nullptr, flags); break;
+              case 2: t = format_data(data.data(), data.size(), start, hasprev ? prev.data() : nullptr, flags); break;
+              case 3: t = format_data(data, start, hasprev ? prev.data() : nullptr, flags); break;
+              case 4: print_data(mf, iov.data(), iov.size(), start, hasprev ? piov.data() : nullptr, hasprev ? piov.size() : 0, fl2); break;
+              case 5: print_data(mf, iov, start, hasprev ? &piov : nullptr, fl2); break;
+              case 6: print_data(mf, data.data(), data.size(), start, hasprev ? prev.data() : nullptr, fl2); break;
+              default: print_data(mf, data, start, hasprev ? prev.data() : nullptr, fl2); break;
+            }
+          } catch (...) {
+            if (mf) {
+              fclose(mf);
+              free(mbuf);
+            }
+            throw;
+          }
+          if (mf) {
+            fclose(mf);
+            t.assign(mbuf, mlen);
+            free(mbuf);
+          }
+        } catch (const exception& e) {
+          st = vt::exc_name(e);
+        }
+        if (st != status || (st == "ok" && t != text)) same = false;
+      }
+    }
     if (!hasprev && !(flags & 1)) {
       string t3 = format_data(data.data(), data.size(), start, nullptr, flags | PrintDataFlags::DISABLE_COLOR);
       if (t3 != text) same = false;
